@@ -521,7 +521,11 @@ func (a *App) genesis() map[string]json.RawMessage {
 		}
 		acc := auth.NewBaseAccountWithAddress(k.Addr)
 		acc.Coins = coins(b)
-		acc.PubKey = k.Pub
+		// every second user's account is one that only ever RECEIVED coins: no public key stored yet (its first
+		// transaction carries the key in the signature); depends on the key seed so that both layouts occur
+		if (int64(i)+c.KeySeed)%2 == 0 {
+			acc.PubKey = k.Pub
+		}
 		accs = append(accs, &acc)
 	}
 	// staked pool funded with the stake of every staked or unstaking genesis validator (consistent genesis)
